@@ -1,10 +1,10 @@
 """Bounded / exhaustive stand-ins for the token layer:
 C12: for every token class with a value codec: from_value(v).value == v, the raw text is lexed back (real lexer, Parser.parse_token) as ONE token of the same
      class with the same value, lexemes are kept verbatim by from_raw_text, and after any sequence of value/raw_text/indent assignments value and text agree.
-     Date is exhaustive over a sample of all calendar dates in quick (every 1st/15th/last + leap days of every year 1..9999) and every date in thorough.
+     Date is exhaustive over a sample of all calendar dates in quick (5 days + leap day of every 97th year and of the years where the width changes); thorough: those days of EVERY year 1..9999 and every day of every 20th year.
 C02: every token of every corpus document x 5 replacement texts: the printed document is the input with exactly that span replaced; all other tokens keep identity/order/text.
 C08 (document level): after each such edit every token position reported by the store equals its (line, column) in the printed text."""
-import datetime, decimal, itertools, random, re, traceback
+import datetime, decimal, itertools, os, random, re, traceback
 from autobean_refactor import parser as P, models
 from autobean_refactor.models import base
 from rtc import tree, specfun
@@ -38,7 +38,8 @@ def value_domain(cls, tier, rnd):
         out = []
         years = range(1, 10000) if tier == 'thorough' else list(range(1, 10000, 97)) + [1, 9, 10, 99, 100, 999, 1000, 1999, 2000, 2024, 9999]
         for y in years:
-            days = [(1, 1), (1, 15), (2, 28), (12, 31), (6, 30)] if tier == 'quick' else [(m, d) for m in range(1, 13) for d in range(1, 32)]
+            every_day = tier != 'quick' and (bool(os.environ.get('VERIF_ALL_DATES')) or y % 20 == 0 or y in (1, 9, 10, 99, 100, 999, 1000, 1999, 2000, 2024, 9999))
+            days = [(m, d) for m in range(1, 13) for d in range(1, 32)] if every_day else [(1, 1), (1, 15), (2, 28), (12, 31), (6, 30)]
             for m, d in days:
                 try: out.append(datetime.date(y, m, d))
                 except ValueError: pass
